@@ -609,14 +609,14 @@ Proof.
   intros [Hn Hsrc Hph Hlate Hbad Hg] Hle Hstep. unfold step_req in Hstep.
   pose proof (Hsrc i) as [Hok Hset Hk Hreq Hpre Hprov].
   (* sources other than i are not concerned by a step of requester i outside complete() *)
-  assert (Hfr : forall s1 p j, j <> i -> stp s1 j = stp s j -> cb s1 j = cb s j ->
+  assert (Hfr : forall s1 p j, j <> i -> rq s1 j = rq s j -> stp s1 j = stp s j -> cb s1 j = cb s j ->
             (cbs s1 = cbs s \/ cbs s1 = ATLEAST) -> sp s1 = sp s ->
             Src req pre (set_rq s1 i p) j).
-  { intros s1 p j Hne H1 H2 H3 H4. apply (Src_frame _ _ s); cbn; rewrite ?upd_neq by exact Hne; auto;
+  { intros s1 p j Hne H0 H1 H2 H3 H4. apply (Src_frame _ _ s); cbn; rewrite ?upd_neq by exact Hne; auto;
       try (intros H; right; congruence). }
   destruct (rq s i) eqn:Hrq; try discriminate Hstep.
   - (* RSet: SET i *)
-    rewrite Hrq in Hok. apply ok3_set in Hok as [Hst Hcb]. rewrite Hst in Hstep.
+    apply ok3_set in Hok as [Hst Hcb]. rewrite Hst in Hstep.
     destruct Hcb as [Hcb|[Hcb|Hcb]]; rewrite Hcb in Hstep; injection Hstep as <- <-.
     + (* no callback yet: it will run inline in start() *)
       constructor; cbn; auto.
@@ -655,7 +655,7 @@ Proof.
           [rewrite upd_eq, Hrq; split; discriminate|rewrite upd_neq by exact Hne; tauto].
       * intros H. exists i. rewrite upd_eq. auto.
   - (* RXchg: the callback exchanges callbackState_ *)
-    rewrite Hrq in Hok. apply ok3_xchg in Hok as [Hcb Hst].
+    apply ok3_xchg in Hok as [Hcb Hst].
     assert (Hf : freed s = false).
     { destruct (phase_freed s Hph) as [H|H]; auto. specialize (H i Hle). rewrite Hcb in H.
       discriminate. }
@@ -713,7 +713,7 @@ Proof.
       unfold after_cb. cbn. rewrite Hrem.
       constructor; cbn; auto.
       * intros j. destruct (Nat.eq_dec j i) as [->|Hne].
-        -- rewrite Hrq in Hok. apply ok3_comp in Hok as [Hst _].
+        -- apply ok3_comp in Hok as [Hst _].
            constructor; cbn; rewrite ?upd_eq; auto; try discriminate.
            rewrite Hrem, Hst. reflexivity.
         -- apply Hfr; cbn; auto.
@@ -723,7 +723,7 @@ Proof.
         intros H. apply Hne. eapply Hun; eauto.
       * rewrite (proj2 (all_torn_iff s) Hall). exact Hbad.
   - (* RStore: CBDONE i *)
-    rewrite Hrq in Hok. apply ok3_store in Hok as [Hcb Hst]. injection Hstep as <- <-.
+    apply ok3_store in Hok as [Hcb Hst]. injection Hstep as <- <-.
     assert (Hf : freed s = false).
     { destruct (phase_freed s Hph) as [H|H]; auto. specialize (H i Hle). rewrite Hcb in H.
       discriminate. }
@@ -740,3 +740,437 @@ Proof.
           [rewrite upd_eq|rewrite upd_neq by exact Hne; auto].
         right; right. repeat split; auto. intros w l. rewrite Hrq. discriminate.
 Qed.
+
+Lemma owner_inv n req pre s s' evs :
+  Inv n req pre s -> step_owner s = Some (s', evs) -> Inv n req pre s'.
+Proof.
+  intros [Hn Hsrc Hph Hlate Hbad Hg] Hstep. unfold step_owner in Hstep.
+  destruct (freed s && negb (destroyed s)); [|discriminate Hstep]. injection Hstep as <- <-.
+  constructor; cbn; auto.
+  - intros j. apply (Src_frame _ _ s); cbn; auto.
+  - apply (Phase_stable s); cbn; auto. tauto.
+Qed.
+
+Lemma step_inv n req pre t s s' evs :
+  Inv n req pre s -> step t s = Some (s', evs) -> Inv n req pre s'.
+Proof.
+  intros HI Hstep. unfold step in Hstep. destruct t as [|i].
+  - eapply start_inv; eauto.
+  - destruct (Nat.leb i (nsrc s)) eqn:Hle.
+    + apply Nat.leb_le in Hle. eapply req_inv; eauto.
+    + destruct (Nat.eqb i (S (nsrc s))); [eapply owner_inv; eauto|discriminate Hstep].
+Qed.
+
+(* the invariant holds in every reachable state *)
+Theorem inv_reachable n req pre sched :
+  Inv n req pre (fst (run step sched (init n req pre, []))).
+Proof.
+  apply (run_invariant_state st nat ev step (Inv n req pre)).
+  - intros s t s' evs HI Hs. eapply step_inv; eauto.
+  - apply Inv_init.
+Qed.
+
+(* ------------------------------------------------------------------------------------------ *)
+(* consequences (state level)                                                                 *)
+
+Lemma Inv_completions_le n req pre s : Inv n req pre s -> completions s <= 1.
+Proof.
+  intros HI. destruct (i_ph _ _ _ _ HI)
+    as [? ? ? ? [H ?]|? ? ? ? [H ?]|? ? [H ?]|? ? ? [H ?]|? ? ? ? [H ?]|? ? ? ? ? ? ? [H ?]|? ? H];
+    rewrite H; lia.
+Qed.
+
+Lemma Inv_freed_iff n req pre s : Inv n req pre s -> (freed s = true <-> completions s = 1).
+Proof.
+  intros HI. destruct (i_ph _ _ _ _ HI)
+    as [? ? ? ? [H H']|? ? ? ? [H H']|? ? [H H']|? ? ? [H H']|? ? ? ? [H H']|? ? ? ? ? ? ? [H H']
+       |? ? H H']; rewrite H, H'; split; intros; try discriminate; auto.
+Qed.
+
+(* after the completion: start() has returned, nobody is inside complete(), every callback is
+   torn down, no requester is executing a callback *)
+Lemma Inv_after_completion n req pre s :
+  Inv n req pre s -> completions s <> 0 ->
+  sp s = SFin /\ freed s = true /\ cbs s = ATLEAST /\
+  (forall j, j <= nsrc s -> torn (cb s j) = true /\
+     (rq s j = RSet \/ rq s j = RFin)).
+Proof.
+  intros HI Hc. destruct (i_ph _ _ _ _ HI)
+    as [? ? ? ? [H ?]|? ? ? ? [H ?]|? ? [H ?]|? ? ? [H ?]|? ? ? ? [H ?]|? ? ? ? ? ? ? [H ?]
+       |Hsp Hnr Hc1 Hf Hcbs Ht]; try congruence.
+  repeat split; auto.
+  pose proof (s_ok _ _ _ _ (i_src _ _ _ _ HI j)) as Hok. specialize (Ht j H).
+  destruct (rq s j) eqn:Hr; auto.
+  - apply ok3_xchg in Hok as [Hcb _]. rewrite Hcb in Ht. discriminate.
+  - exfalso. eapply Hnr; eauto.
+  - apply ok3_store in Hok as [Hcb _]. rewrite Hcb in Ht. discriminate.
+Qed.
+
+Lemma in_seq0 n i : In i (seq 0 (S n)) <-> i <= n.
+Proof. rewrite in_seq. lia. Qed.
+
+Lemma quiescent_spec s :
+  quiescent s = true ->
+  sp s = SFin /\ (forall i, i <= nsrc s -> rq s i = RFin) /\ (freed s = true -> destroyed s = true).
+Proof.
+  unfold quiescent. intros H. apply andb_true_iff in H as [H Ho]. apply andb_true_iff in H as [Hs Hr].
+  repeat split.
+  - destruct (sp s); try discriminate Hs; reflexivity.
+  - intros i Hi. rewrite forallb_forall in Hr. specialize (Hr i (proj2 (in_seq0 _ _) Hi)).
+    destruct (rq s i); try discriminate Hr; reflexivity.
+  - intros Hf. rewrite Hf in Ho. exact Ho.
+Qed.
+
+(* no lost completion *)
+Lemma Inv_no_lost n req pre s :
+  Inv n req pre s -> quiescent s = true -> any_stop n req pre = true -> completions s = 1.
+Proof.
+  intros HI Hq Hany. destruct (quiescent_spec s Hq) as (Hsp & Hr & _).
+  unfold any_stop in Hany. apply existsb_exists in Hany as (i & Hi & Hrp).
+  apply in_seq0 in Hi. rewrite <- (i_n _ _ _ _ HI) in Hi.
+  pose proof (i_src _ _ _ _ HI i) as [Hok Hset Hk Hreq Hpre Hprov].
+  assert (Hst : stp s i = true).
+  { apply orb_true_iff in Hrp as [H|H]; auto.
+    destruct (Hreq H) as [H'|H']; auto. rewrite (Hr i Hi) in H'. discriminate. }
+  destruct (i_ph _ _ _ _ HI)
+    as [? Hsp' ? ? ? ? ? ?|? Hsp' ? ? ? ? ? ? ?|Hsp' ? ? ? ?|_ Hcbs _ _ Hb|? ? Hsp' ? ? ?
+       |i0 ? ? _ Hle Hr0 _ _ _|_ _ Hc _ _ _]; try congruence.
+  - (* armed although source i is stopped: impossible *)
+    exfalso. destruct (Hk Hst) as [H|[H|[H|H]]]; try congruence.
+    + specialize (Hb i Hi). rewrite H in Hb. destruct Hb as [Hb|[Hb|[Hb|Hb]]]; discriminate.
+    + rewrite (Hr i Hi) in H. discriminate.
+  - rewrite (Hr i0 Hle) in Hr0. discriminate.
+Qed.
+
+(* completed only after a stop request on one of the sources *)
+Lemma Inv_only_after_stop n req pre s :
+  Inv n req pre s -> completions s <> 0 ->
+  exists i, i <= n /\ stp s i = true /\ (req i = true \/ pre i = true).
+Proof.
+  intros HI Hc. destruct (Inv_after_completion _ _ _ _ HI Hc) as (_ & _ & Hcbs & _).
+  destruct (i_g _ _ _ _ HI Hcbs) as (i & Hi & Hs). exists i.
+  rewrite <- (i_n _ _ _ _ HI). repeat split; auto. apply (s_prov _ _ _ _ (i_src _ _ _ _ HI i) Hs).
+Qed.
+
+Lemma Inv_never_without_stop n req pre s :
+  Inv n req pre s -> any_stop n req pre = false -> completions s = 0.
+Proof.
+  intros HI Hany. destruct (Nat.eq_dec (completions s) 0) as [H|H]; auto. exfalso.
+  destruct (Inv_only_after_stop _ _ _ _ HI H) as (i & Hi & _ & Hrp).
+  assert (any_stop n req pre = true); [|congruence].
+  unfold any_stop. apply existsb_exists. exists i. split; [now apply in_seq0|].
+  apply orb_true_iff. tauto.
+Qed.
+
+(* ------------------------------------------------------------------------------------------ *)
+(* progress: no deadlock                                                                      *)
+
+Lemma step_req_unfold i s : i <= nsrc s -> step (S i) s = step_req i s.
+Proof. intros H. unfold step. apply Nat.leb_le in H. now rewrite H. Qed.
+
+Lemma req_enabled n req pre s i :
+  Inv n req pre s -> i <= nsrc s -> rq s i = RSet \/ rq s i = RXchg \/ rq s i = RStore ->
+  step (S i) s <> None.
+Proof.
+  intros HI Hi Hr. rewrite (step_req_unfold _ _ Hi). unfold step_req.
+  pose proof (s_ok _ _ _ _ (i_src _ _ _ _ HI i)) as Hok.
+  destruct Hr as [Hr|[Hr|Hr]]; rewrite Hr in *.
+  - apply ok3_set in Hok as [Hst _]. rewrite Hst. destruct (cb s i); discriminate.
+  - destruct (cbs s); discriminate.
+  - discriminate.
+Qed.
+
+Lemma comp_progress t w todo s :
+  CompInv t w todo s ->
+  comp_step t w todo s <> None \/ exists k, k <= nsrc s /\ t <> S k /\ cb s k = BExec.
+Proof.
+  intros HC. unfold comp_step. destruct todo as [|k r]; [left; discriminate|].
+  destruct w.
+  - destruct (c_wait _ _ _ _ HC eq_refl) as (k' & r' & Heq & Hk & Hne). injection Heq as <- <-.
+    destruct Hk as [Hk|Hk]; rewrite Hk; [right|left; discriminate].
+    exists k. repeat split; auto. eapply comp_in_le; eauto. now left.
+  - left. destruct (comp_head_pending _ _ _ _ _ HC eq_refl) as [H|[H|H]]; rewrite H;
+      try destruct (Nat.eqb t (S k)); discriminate.
+Qed.
+
+Lemma forallb_false_ex {A} (f : A -> bool) l :
+  forallb f l = false -> exists a, In a l /\ f a = false.
+Proof.
+  induction l as [|a l IH]; cbn; [discriminate|].
+  destruct (f a) eqn:Ea; cbn.
+  - intros H. destruct (IH H) as (x & Hx & Hr). exists x. auto.
+  - intros _. exists a. auto.
+Qed.
+
+Lemma progress_inv n req pre s :
+  Inv n req pre s -> quiescent s = false -> exists t, step t s <> None.
+Proof.
+  intros HI Hq.
+  (* a requester (other than one inside complete()) that has not finished can move *)
+  assert (Hreq : (forall i w l, i <= nsrc s -> rq s i <> RComp w l) ->
+                 forallb (fun i => rfin (rq s i)) (seq 0 (S (nsrc s))) = false ->
+                 exists t, step t s <> None).
+  { intros Hnr Hf.
+    assert (Hex : exists i, i <= nsrc s /\ rq s i <> RFin).
+    { destruct (forallb_false_ex _ _ Hf) as (i & Hi & Hr). exists i. split.
+      - apply in_seq in Hi. lia.
+      - intros H. rewrite H in Hr. discriminate. }
+    destruct Hex as (i & Hi & Hr). exists (S i).
+    eapply req_enabled; eauto.
+    destruct (rq s i) eqn:E; auto; try congruence. exfalso. eapply Hnr; eauto. }
+  pose proof (i_ph _ _ _ _ HI) as Hph.
+  destruct Hph as [i Hsp Hle Hnr Hq0 Hna Hlt Hge|i Hsp Hle Hnr Hq0 Hna Hlt Hi Hgt|Hsp Hnr Hq0 Hna Hb
+         |Hsp Hcbs Hnr Hq0 Hb|w todo Hsp Hnr Hq0 HC|i w todo Hsp Hle Hr Hun Hq0 HC
+         |Hsp Hnr Hc1 Hf1 Hcbs Ht].
+  - exists 0. cbn. unfold step_start. rewrite Hsp. apply Nat.leb_le in Hle. rewrite Hle.
+    destruct (stp s i); discriminate.
+  - exists 0. cbn. unfold step_start. rewrite Hsp. destruct (cbs s); discriminate.
+  - exists 0. cbn. unfold step_start. rewrite Hsp. destruct (cbs s); discriminate.
+  - (* armed *)
+    unfold quiescent in Hq. rewrite Hsp in Hq. destruct Hq0 as [_ Hf]. rewrite Hf in Hq.
+    change (sfin SFin) with true in Hq. change (negb false) with true in Hq.
+    rewrite andb_true_l, orb_true_l, andb_true_r in Hq. apply Hreq; auto; try (intros j w l _; apply Hnr).
+  - (* start() inside complete() *)
+    destruct (comp_progress _ _ _ _ HC) as [H|(k & Hk & _ & Hex)].
+    + exists 0. cbn. unfold step_start. rewrite Hsp.
+      destruct (comp_step 0 w todo s) as [[[s1 evs1] [[w' todo']|]]|]; congruence.
+    + exists (S k). eapply req_enabled; eauto.
+      pose proof (s_ok _ _ _ _ (i_src _ _ _ _ HI k)) as Hok. rewrite Hex in Hok.
+      apply ok3_exec in Hok as [_ [H|[H|(w0 & l0 & H)]]]; auto. exfalso. eapply Hnr; eauto.
+  - (* requester i inside complete() *)
+    destruct (comp_progress _ _ _ _ HC) as [H|(k & Hk & Hne & Hex)].
+    + exists (S i). rewrite (step_req_unfold _ _ Hle). unfold step_req. rewrite Hr.
+      destruct (comp_step (S i) w todo s) as [[[s1 evs1] [[w' todo']|]]|]; congruence.
+    + exists (S k). eapply req_enabled; eauto.
+      pose proof (s_ok _ _ _ _ (i_src _ _ _ _ HI k)) as Hok. rewrite Hex in Hok.
+      apply ok3_exec in Hok as [_ [H|[H|(w0 & l0 & H)]]]; auto. exfalso.
+      apply Hne. f_equal. symmetry. eapply Hun; eauto.
+  - (* completed *)
+    unfold quiescent in Hq. rewrite Hsp, Hf1 in Hq.
+    change (sfin SFin) with true in Hq. change (negb true) with false in Hq.
+    rewrite andb_true_l, orb_false_l in Hq.
+    destruct (forallb (fun i => rfin (rq s i)) (seq 0 (S (nsrc s)))) eqn:E.
+    + rewrite andb_true_l in Hq. exists (S (S (nsrc s))). unfold step.
+      assert (Hl : Nat.leb (S (nsrc s)) (nsrc s) = false) by (apply Nat.leb_gt; lia).
+      rewrite Hl, Nat.eqb_refl. unfold step_owner. rewrite Hf1, Hq. discriminate.
+    + apply Hreq; auto; try (intros j w l _; apply Hnr).
+Qed.
+
+(* ------------------------------------------------------------------------------------------ *)
+(* what a step that completes the receiver / a step after the completion looks like            *)
+
+Lemma comp_step_root t w todo s s1 evs r :
+  comp_step t w todo s = Some (s1, evs, r) -> In ERoot evs -> todo = [].
+Proof.
+  unfold comp_step. destruct todo as [|k l]; [reflexivity|].
+  destruct w; destruct (cb s k); try discriminate; try destruct (Nat.eqb t (S k));
+    intros H; injection H as <- <- <-; cbn; intros [Hf|[]]; discriminate Hf.
+Qed.
+
+Lemma root_step t s s' evs :
+  step t s = Some (s', evs) -> In ERoot evs ->
+  (t = 0 /\ exists ret w, sp s = SComp ret w []) \/
+  (exists i w, t = S i /\ i <= nsrc s /\ rq s i = RComp w []).
+Proof.
+  unfold step. destruct t as [|i].
+  - unfold step_start. intros Hs Hin. left. split; [reflexivity|].
+    destruct (sp s) as [i|i| |ret w todo|] eqn:Hsp; try discriminate Hs.
+    + destruct (Nat.leb i (nsrc s)); [|discriminate Hs].
+      destruct (stp s i); injection Hs as <- <-; destruct Hin as [H|[]]; discriminate H.
+    + destruct (cbs s); injection Hs as <- <-; destruct Hin as [H|[]]; discriminate H.
+    + destruct (cbs s); injection Hs as <- <-; destruct Hin as [H|[]]; discriminate H.
+    + destruct (comp_step 0 w todo s) as [[[s1 evs1] r]|] eqn:Hcs; [|discriminate Hs].
+      assert (evs = evs1) by (destruct r as [[? ?]|]; injection Hs as _ <-; reflexivity). subst evs1.
+      rewrite (comp_step_root _ _ _ _ _ _ _ Hcs Hin). eauto.
+  - destruct (Nat.leb i (nsrc s)) eqn:Hle.
+    + apply Nat.leb_le in Hle. unfold step_req. intros Hs Hin. right.
+      destruct (rq s i) as [| |w todo| |] eqn:Hr; try discriminate Hs.
+      * destruct (stp s i); [discriminate Hs|].
+        destruct (cb s i); injection Hs as <- <-; destruct Hin as [H|[]]; discriminate H.
+      * destruct (cbs s); injection Hs as <- <-; destruct Hin as [H|[]]; discriminate H.
+      * destruct (comp_step (S i) w todo s) as [[[s1 evs1] r]|] eqn:Hcs; [|discriminate Hs].
+        assert (evs = evs1) by (destruct r as [[? ?]|]; injection Hs as _ <-; reflexivity).
+        subst evs1. pose proof (comp_step_root _ _ _ _ _ _ _ Hcs Hin) as ->. eauto.
+      * injection Hs as <- <-. destruct Hin as [H|[]]; discriminate H.
+    + destruct (Nat.eqb i (S (nsrc s))); [|discriminate].
+      unfold step_owner. destruct (freed s && negb (destroyed s)); [|discriminate].
+      intros Hs Hin. injection Hs as <- <-. destruct Hin as [H|[]]; discriminate H.
+Qed.
+
+(* at the step that completes the receiver every callback is deregistered or ran inline;
+   in particular none is executing *)
+Lemma Inv_torn_at_completion n req pre t s s' evs :
+  Inv n req pre s -> step t s = Some (s', evs) -> In ERoot evs ->
+  forall k, k <= n -> torn (cb s k) = true /\ cb s k <> BExec /\ cb s k <> BReg.
+Proof.
+  intros HI Hs Hin k Hk. rewrite <- (i_n _ _ _ _ HI) in Hk.
+  assert (Ht : torn (cb s k) = true).
+  { destruct (root_step _ _ _ _ Hs Hin) as [(-> & ret & w & Hsp)|(i & w & -> & Hi & Hr)].
+    - destruct (i_ph _ _ _ _ HI)
+        as [? Hsp' ? ? ? ? ? ?|? Hsp' ? ? ? ? ? ? ?|Hsp' ? ? ? ?|Hsp' ? ? ? ?|w0 todo0 Hsp' _ _ HC
+           |? ? ? Hsp' ? ? ? ? ?|Hsp' ? ? ? ? ?]; try congruence.
+      rewrite Hsp in Hsp'. injection Hsp' as _ <- <-. eapply comp_all_torn; eauto.
+    - destruct (phase_rcomp _ _ _ _ (i_ph _ _ _ _ HI) Hr) as (_ & _ & _ & _ & HC).
+      eapply comp_all_torn; eauto. }
+  split; [exact Ht|]. split; intros H; rewrite H in Ht; discriminate.
+Qed.
+
+(* after the completion the only possible steps are the owner's destruction of the operation
+   and SET on a source whose callback is gone (no access to the operation at all) *)
+Lemma Inv_quiet_step n req pre t s s' evs :
+  Inv n req pre s -> freed s = true -> step t s = Some (s', evs) ->
+  (t = S (S n) /\ evs = [EDestroy]) \/
+  (exists i, i <= n /\ t = S i /\ evs = [ESet i] /\ torn (cb s i) = true /\
+             cb s' = cb s /\ cbs s' = cbs s).
+Proof.
+  intros HI Hf Hs.
+  assert (Hc : completions s <> 0).
+  { apply (Inv_freed_iff _ _ _ _ HI) in Hf. lia. }
+  destruct (Inv_after_completion _ _ _ _ HI Hc) as (Hsp & _ & _ & Hall).
+  pose proof (i_n _ _ _ _ HI) as Hn.
+  unfold step in Hs. destruct t as [|i].
+  - unfold step_start in Hs. rewrite Hsp in Hs. discriminate Hs.
+  - destruct (Nat.leb i (nsrc s)) eqn:Hle.
+    + apply Nat.leb_le in Hle. destruct (Hall i Hle) as [Ht Hr]. right. exists i.
+      unfold step_req in Hs. destruct Hr as [Hr|Hr]; rewrite Hr in Hs; [|discriminate Hs].
+      destruct (stp s i); [discriminate Hs|].
+      destruct (cb s i) eqn:Hcb; try discriminate Ht; injection Hs as <- <-;
+        repeat split; auto; lia.
+    + destruct (Nat.eqb_spec i (S (nsrc s))) as [->|]; [|discriminate Hs].
+      unfold step_owner in Hs. destruct (freed s && negb (destroyed s)); [|discriminate Hs].
+      injection Hs as <- <-. left. rewrite Hn. auto.
+Qed.
+
+(* ------------------------------------------------------------------------------------------ *)
+(* trace level: the ERoot events are exactly the completions                                   *)
+
+Definition is_root (e : ev) : bool := match e with ERoot => true | _ => false end.
+
+Lemma comp_step_count t w todo s s1 evs r :
+  comp_step t w todo s = Some (s1, evs, r) ->
+  completions s1 = completions s + length (filter is_root evs).
+Proof.
+  unfold comp_step. destruct todo as [|k l].
+  - intros H. injection H as <- <- _. cbn. lia.
+  - destruct w; destruct (cb s k); try discriminate; try destruct (Nat.eqb t (S k));
+      intros H; injection H as <- <- _; cbn; lia.
+Qed.
+
+Lemma step_count t s s' evs :
+  step t s = Some (s', evs) -> completions s' = completions s + length (filter is_root evs).
+Proof.
+  unfold step. destruct t as [|i].
+  - unfold step_start. destruct (sp s) as [i|i| |ret w todo|]; try discriminate.
+    + destruct (Nat.leb i (nsrc s)); [|discriminate].
+      destruct (stp s i); intros H; injection H as <- <-; cbn; lia.
+    + destruct (cbs s); intros H; injection H as <- <-; cbn; lia.
+    + destruct (cbs s); intros H; injection H as <- <-; cbn; lia.
+    + destruct (comp_step 0 w todo s) as [[[s1 evs1] r]|] eqn:Hcs; [|discriminate].
+      apply comp_step_count in Hcs.
+      destruct r as [[? ?]|]; intros H; injection H as <- <-; cbn; exact Hcs.
+  - destruct (Nat.leb i (nsrc s)).
+    + unfold step_req. destruct (rq s i) as [| |w todo| |]; try discriminate.
+      * destruct (stp s i); [discriminate|].
+        destruct (cb s i); intros H; injection H as <- <-; cbn; lia.
+      * destruct (cbs s); intros H; injection H as <- <-; cbn; lia.
+      * destruct (comp_step (S i) w todo s) as [[[s1 evs1] r]|] eqn:Hcs; [|discriminate].
+        apply comp_step_count in Hcs.
+        destruct r as [[? ?]|]; intros H; injection H as <- <-; cbn; exact Hcs.
+      * intros H; injection H as <- <-; cbn; lia.
+    + destruct (Nat.eqb i (S (nsrc s))); [|discriminate].
+      unfold step_owner. destruct (freed s && negb (destroyed s)); [|discriminate].
+      intros H; injection H as <- <-; cbn; lia.
+Qed.
+
+Lemma roots_reachable n req pre sched :
+  let c := run step sched (init n req pre, []) in
+  length (filter is_root (snd c)) = completions (fst c).
+Proof.
+  cbv zeta.
+  apply (run_invariant st nat ev step
+           (fun c => length (filter is_root (snd c)) = completions (fst c))).
+  - intros c t s' evs HI Hs. cbn [fst snd]. rewrite filter_app, app_length, HI.
+    symmetry. apply step_count with (t := t). exact Hs.
+  - reflexivity.
+Qed.
+
+(* ------------------------------------------------------------------------------------------ *)
+(* the requested statements: for all n, all requested / pre-stopped sets, all schedules        *)
+
+Section Main.
+  Variable n : nat.
+  Variables req pre : nat -> bool.
+  Variable sched : list nat.
+  Let c := run step sched (init n req pre, []).
+  Let s := fst c.
+  Let tr := snd c.
+
+  (* 1. one completer: never two completions; exactly one at quiescence as soon as one source
+        is requested or was already stopped; none if no source is ever stopped *)
+  Theorem one_completer :
+    completions s <= 1 /\
+    (quiescent s = true -> any_stop n req pre = true -> completions s = 1) /\
+    (any_stop n req pre = false -> completions s = 0).
+  Proof.
+    pose proof (inv_reachable n req pre sched) as HI. fold c in HI. fold s in HI.
+    split; [eapply Inv_completions_le; eauto|]. split.
+    - eapply Inv_no_lost; eauto.
+    - eapply Inv_never_without_stop; eauto.
+  Qed.
+
+  (* 2. the receiver is completed only by set_done (ERoot is the only completion event of the
+        model and the trace has exactly [completions] of them) and only after a stop request on
+        one of the n+1 sources, which was asked for by the environment *)
+  Theorem completed_only_after_stop :
+    length (filter is_root tr) = completions s /\
+    (completions s <> 0 ->
+     exists i, i <= n /\ stp s i = true /\ (req i = true \/ pre i = true)).
+  Proof.
+    split; [exact (roots_reachable n req pre sched)|].
+    eapply Inv_only_after_stop, inv_reachable.
+  Qed.
+
+  (* 3. at the step that completes the receiver every callback 0..n is deregistered or ran
+        inline (torn), none is executing, none is still registered; the ghost counter of
+        incomplete teardowns stays 0 *)
+  Theorem callbacks_torn_down_before_completion :
+    badtd s = 0 /\
+    forall t s' evs, step t s = Some (s', evs) -> In ERoot evs ->
+      forall k, k <= n -> torn (cb s k) = true /\ cb s k <> BExec /\ cb s k <> BReg.
+  Proof.
+    pose proof (inv_reachable n req pre sched) as HI. fold c in HI. fold s in HI.
+    split; [apply (i_badtd _ _ _ _ HI)|].
+    intros t s' evs. eapply Inv_torn_at_completion; eauto.
+  Qed.
+
+  (* 4. quiet after completion: no access to callbackState_ or to a callback object is ever
+        made after the receiver was completed; once it is completed start() has returned, every
+        callback is torn down, every requester is either done or has not yet set its stop flag,
+        and the only steps left are the owner's destruction and SET on a source that no longer
+        has a callback (in particular nobody stores callbackCompleted_) *)
+  Theorem quiet_after_completion :
+    late s = 0 /\
+    (freed s = true <-> completions s = 1) /\
+    (completions s <> 0 ->
+       sp s = SFin /\ freed s = true /\ cbs s = ATLEAST /\
+       forall j, j <= nsrc s -> torn (cb s j) = true /\ (rq s j = RSet \/ rq s j = RFin)) /\
+    (freed s = true -> forall t s' evs, step t s = Some (s', evs) ->
+       (t = S (S n) /\ evs = [EDestroy]) \/
+       (exists i, i <= n /\ t = S i /\ evs = [ESet i] /\ torn (cb s i) = true /\
+                  cb s' = cb s /\ cbs s' = cbs s)).
+  Proof.
+    pose proof (inv_reachable n req pre sched) as HI. fold c in HI. fold s in HI.
+    split; [apply (i_late _ _ _ _ HI)|]. split; [eapply Inv_freed_iff; eauto|]. split.
+    - eapply Inv_after_completion; eauto.
+    - intros Hf t s' evs. eapply Inv_quiet_step; eauto.
+  Qed.
+
+  (* 5. no deadlock: in every reachable state that is not quiescent some thread can move; in
+        particular the spin on callbackCompleted_ never waits for the spinning thread itself
+        and never for a callback that nobody will finish *)
+  Theorem progress : quiescent s = false -> exists t, step t s <> None.
+  Proof. eapply progress_inv, inv_reachable. Qed.
+
+  Theorem inv_holds : Inv n req pre s.
+  Proof. apply inv_reachable. Qed.
+End Main.
